@@ -312,6 +312,25 @@ func CheckC17(c *Ctx, entry, input string, r interface{ IntN(int) int }) {
 		if n2 != len(infos) {
 			c.Violate("c17:preorder-iterator-reuse", entry, input, fmt.Sprintf("ranging again over a stored Preorder iterator after an early stop yields %d nodes, the tree has %d", n2, len(infos)))
 		}
+		// the same iterator value ranged over in a nested fashion: the inner full passes must not disturb the outer one
+		if len(infos) <= 400 {
+			seq := ast.Preorder(root)
+			outer, inner := 0, 0
+			callSUT(func() {
+				for range seq {
+					outer++
+					if outer <= 3 {
+						for range seq {
+							inner++
+						}
+					}
+				}
+			})
+			wantInner := len(infos) * min(3, len(infos))
+			if outer != len(infos) || inner != wantInner {
+				c.Violate("c17:preorder-nested-iteration", entry, input, fmt.Sprintf("nested ranging over one Preorder value: outer saw %d of %d nodes, inner passes saw %d of %d", outer, len(infos), inner, wantInner))
+			}
+		}
 		// Preorder full
 		n := 0
 		callSUT(func() {
@@ -743,11 +762,12 @@ func pxCompile(src string) (fn posFn, err error) {
 }
 
 type c19State struct {
-	ev      *pxEval
-	repoPos map[string][2]poslang.PosExpr
-	docs    map[string][2]string
-	cat     *astcatalog.Catalog
-	err     error
+	ev        *pxEval
+	repoPos   map[string][2]poslang.PosExpr
+	sharedPos map[string][2]poslang.PosExpr
+	docs      map[string][2]string
+	cat       *astcatalog.Catalog
+	err       error
 }
 
 // checkCatalogFields: (c) the catalog's node-typed fields equal the reflective model, for every node type observed.
@@ -777,7 +797,7 @@ func c19Init(c *Ctx) *c19State {
 	if c19 != nil {
 		return c19
 	}
-	st := &c19State{ev: &pxEval{exprs: map[string][2]posFn{}}, repoPos: map[string][2]poslang.PosExpr{}}
+	st := &c19State{ev: &pxEval{exprs: map[string][2]posFn{}}, repoPos: map[string][2]poslang.PosExpr{}, sharedPos: map[string][2]poslang.PosExpr{}}
 	c19 = st
 	astFile := filepath.Join(c.RepoDir, "ast", "ast.go")
 	constFile := filepath.Join(c.RepoDir, "ast", "ast_const.go")
@@ -802,6 +822,7 @@ func c19Init(c *Ctx) *c19State {
 		st.err = fmt.Errorf("astcatalog.Load: %v %v", pv, err)
 		return st
 	}
+	shared := map[string]poslang.PosExpr{}
 	for name, def := range cat.Structs {
 		var pe, ee poslang.PosExpr
 		var e1, e2 error
@@ -811,6 +832,16 @@ func c19Init(c *Ctx) *c19State {
 			return st
 		}
 		st.repoPos[string(name)] = [2]poslang.PosExpr{pe, ee}
+		// a second set of expression objects, one per distinct expression text and shared by all structs that publish
+		// that text: the interpreter's answer must not depend on what an expression object evaluated before
+		for _, txt := range []string{def.Pos, def.End} {
+			if shared[txt] == nil {
+				var x poslang.PosExpr
+				callSUT(func() { x, _ = poslang.Parse(txt) })
+				shared[txt] = x
+			}
+		}
+		st.sharedPos[string(name)] = [2]poslang.PosExpr{shared[def.Pos], shared[def.End]}
 	}
 	st.cat = cat
 	return st
@@ -903,6 +934,14 @@ func CheckC19Tree(c *Ctx, entry, input string) {
 					c.Violate("c19:interp-panic:"+tn, entry, input, fmt.Sprintf("poslang interpreter panics on %s: %v", tn, pv))
 				} else if ip != gp || ie != ge {
 					c.Violate("c19:interp:"+tn, entry, input, fmt.Sprintf("%s: interpreter (%d,%d) vs compiled (%d,%d)", tn, ip, ie, gp, ge))
+				}
+				if sp, ok := st.sharedPos[tn]; ok && sp[0] != nil && sp[1] != nil {
+					var ip, ie token.Pos
+					if pv, _ := callSUT(func() { ip, ie = sp[0].EvalPos(in.Node), sp[1].EvalPos(in.Node) }); pv != nil {
+						c.Violate("c19:interp-shared-panic:"+tn, entry, input, fmt.Sprintf("poslang interpreter panics on %s when the expression object is shared with other node types: %v", tn, pv))
+					} else if ip != gp || ie != ge {
+						c.Violate("c19:interp-shared:"+tn, entry, input, fmt.Sprintf("%s: interpreter with an expression object shared across node types (%d,%d) vs compiled (%d,%d)", tn, ip, ie, gp, ge))
+					}
 				}
 			} else {
 				c.Violate("c19:catalog-missing:"+tn, entry, input, "node type not in the catalog")
